@@ -16,7 +16,7 @@ from spec import fnum
 
 PROPERTY_ID = "C06"
 LEVEL = "exploration"
-RULE = ("per built-in form (15 forms incl. buck4 and polynomial orders 0-8): seeded parameter vectors inside the form's domain, pairwise "
+RULE = ("per built-in form (15 forms incl. buck4 and polynomial orders 0-24): seeded parameter vectors inside the form's domain, pairwise "
         "distinct so that a permutation of arguments changes the value, including zeros and negatives, integer and fractional exponents; "
         "12 separations in (0, 30]; each vector is evaluated through potentialfunctions.f(r,*p), potentialforms.f(*p)(r), "
         "'as.NAME p...' in a [Pair] entry and g(r,p...) = as.NAME(r,p...) in [Potential-Form] (all but buck4), plus the energy column "
@@ -69,6 +69,9 @@ def gen_cases(rng, tier):
       vecs = [distinct(rng, name) for _ in range(NVEC)]
       if name == "polynomial":
         vecs = [[round(rng.uniform(-2, 2), 4) for _ in range(order + 1)] for order in rng.sample(range(0, 9), min(NVEC, 9))]
+        if k % 4 == 3:
+          # "polynomial of any order": orders 9..24 as well (fixed-size tables of exponents, unrolled loops)
+          vecs = [[round(rng.uniform(-2, 2) / (1 + j), 6) for j in range(order + 1)] for order in rng.sample(range(9, 25), min(NVEC, 16))]
       if k == 0 and name in ("buck", "hbnd", "coul", "exponential", "morse", "lj"):
         z = list(vecs[0])
         z[rng.randrange(len(z))] = 0.0
